@@ -127,6 +127,11 @@ func parsedTypeByKind(v any) core.ParsedType {
 		if end == nil {
 			return core.ParsedTypeNil
 		}
+		if _, ok := end.(big.Int); ok {
+			// The chain ended in a *big.Int: like a plain *big.Int it is a bigint,
+			// not the struct it points to.
+			return core.ParsedTypeBigint
+		}
 		return ParsedType(end)
 	default:
 		return core.ParsedTypeUnknown
